@@ -6,7 +6,7 @@ Import ListNotations.
 From SV Require Import Text C01_Lines G_codes G_c01_io C01_Model C01_Lemmas C01_Formats C01_Dec C01_Stockholm C01_Domain C01_Gff C01_Main C01_IdPattern C01_Reader.
 
 (* the FASTA id matcher of the model was written for exactly the pattern text found in /repo *)
-Theorem C01_idpattern_pinned : FASTA_IDPATTERN_TEXT = IDPATTERN_PINNED.
+Theorem C01_idpattern_pinned : FASTA_IDPATTERN_CANON = IDPATTERN_PINNED.
 Proof. exact idpattern_pinned. Qed.
 Print Assumptions C01_idpattern_pinned.
 
